@@ -38,6 +38,14 @@ def judge(rec):
         bad.append("the loader started the program: handles %s" % rec["handles"])
     if rec.get("load_errors_delta") != 1:
         bad.append("prog_load_errors_total advanced by %s (expected 1)" % rec.get("load_errors_delta"))
+    rl = rec.get("reload")
+    if rl:
+        # a valid version of that name runs; the defective source is offered twice: refused both times, the old version stays
+        if rl["errors_first"] != 1 or not rl["error_recorded_first"]:
+            bad.append("offered while a valid version runs: prog_load_errors_total +%s, error recorded: %s" % (rl["errors_first"], rl["error_recorded_first"]))
+        if rl["errors_again"] != 1 or not rl["error_recorded_again"]:
+            bad.append("the same defective source offered a second time is not refused again: prog_load_errors_total +%s, error recorded: %s"
+                       % (rl["errors_again"], rl["error_recorded_again"]))
     if rec.get("loads_delta") != 0:
         bad.append("prog_loads_total advanced by %s for a rejected program" % rec.get("loads_delta"))
     return bad
